@@ -258,7 +258,7 @@ def main(tier, replay=None):
     if replay:
         return do_replay(replay, ucg, base)
     cfgs = ["c16_q1", "c16_q2"] if tier == "quick" else ["c16_q1", "c16_q2", "c16_t1"]
-    budget = 330 if tier == "quick" else 5000
+    budget = 330 if tier == "quick" else 2500
     opendevs = B.open_deviations() & DEVS
     states = trans = 0
     cmds = []
@@ -280,10 +280,9 @@ def main(tier, replay=None):
             cmds.append(r2.cmd)
             for c in r2.replays:
                 devcases.setdefault(B.case_key(c), []).append(c)
-    keys = sorted(cases)
-    rng = random.Random(sd)
-    rng.shuffle(keys)
-    keys.sort(key=lambda k: 0 if nontrivial(cases[k]) else 1)
+    keys = B.choose(cases, lambda k: nontrivial(cases[k]), len(cases), random.Random(sd))
+    easy = [k for k in keys if not nontrivial(cases[k])]
+    keys = easy[:budget // 20] + [k for k in keys if nontrivial(cases[k])] + easy[budget // 20:]
     chosen = []
     slow = 0
     for k in keys:
@@ -361,6 +360,8 @@ def main(tier, replay=None):
                 states += info.get("states", 0)
     code = rep.finish()
     shutil.rmtree(base, ignore_errors=True)
+    if code == 0:
+        shutil.rmtree(gd, ignore_errors=True)      # kept after a violation: the trace files are evidence
     if not samples:
         samples = [r["text"] for r in results[:3]]
     C.write_evidence(PID, tier, "model_checking", {
